@@ -68,6 +68,7 @@ FOCUS = {
     "globals_inserts_exclusive_on_tree": ["compile-race"],
     "globals_entries_frozen_on_tree": ["multi-runtime"],
     "names_resolved_per_runtime_on_tree": ["multi-runtime"],
+    "thread_locals_pure_caches_on_tree": ["cross-thread-build"],
 }
 
 
@@ -87,7 +88,7 @@ def share_focus(ctx):
     if "extract:c12frame" in ctx.broken:
         focus = (focus or []) + ["frame-slots"]
     if "extract:c12globals" in ctx.broken:
-        focus = (focus or []) + ["compile-race", "multi-runtime"]
+        focus = (focus or []) + ["compile-race", "multi-runtime", "cross-thread-build"]
     return focus or None
 
 
@@ -210,6 +211,11 @@ def run(ctx):
         "or_insert_with / extend / set …); entryCells by type NAME across src/ (crate structs / enums inlined by name); nameSources by the identifiers in each arm of the match over ty.description in rust_type_to_roto_type; "
         "a guard handed to a helper function is outside the scan. The external symbol_table interner is not modelled at source level: its contract (one identifier per text under concurrent interning) is decided by the verified "
         "checker Intern.consistent on the observations of hook verif_hooks::c12::intern; that a read-locked lookup section and an exclusive insert section are atomic steps is the lock machine (no_foreign_write_while_held, global_insert_section_alone)",
+        "translator target c12globals (round 4, thread-local tables): every `static` inside a `thread_local!` under src/ (hooks / tests skipped) by NAME; per function that names it, operations by METHOD NAME inside "
+        "`NAME.with*(…)` (lookup / insert lists as above; `.get()` / `.take()` / `.set()` / `.replace()` on the key itself), anything else is `.other` (fails the decision); sharedAfterLookup = an acquisition "
+        "(`.lock()` / `.read()` / `.write()`) of a lock-shaped static of the crate occurs textually after the first lookup in the same function — a fall-through in a helper function is outside the scan and fails the decision; "
+        "threadIdUses = syn paths ending in `thread::current` / `ThreadId` and `use` items naming them (a renamed import `use std::thread as t; t::current()` is outside the scan); "
+        "CacheCoherent (a thread's table holds only copies of shared entries) is the hypothesis of pure_cache_thread_independent, not extracted",
         "modelled, not verified: data races inside machine code are exercised by the stress run only "
         "(thorough tier repeats the stress cases in a ThreadSanitizer build, which instruments the Rust side but not the JIT-generated code)",
     ]
@@ -230,7 +236,10 @@ def run(ctx):
              "scripts of THAT runtime must compile and return the closed form, handles must have the declared Rust signature, scripts returning one registered type as another must be rejected: each runtime "
              "behaves as alone in a fresh process), compile-race (3-8 barrier-synchronised threads parse + compile + call scripts whose 36-120 identifier texts are new to the process and shared between the "
              "threads — same script, overlapping name windows, or each thread first builds a runtime registering functions under the same fresh names; 40 rounds; every outcome must equal the same source "
-             "compiled alone on one thread = the closed form); rustc probes: a Send + !Sync closure, an Rc constant and a Send + !Sync "
+             "compiled alone on one thread = the closed form), cross-thread-build (run FIRST; ten steps — build a Type, Functions over Val<T> / Option<Val<T>>, a Constant, a library! with a second host type; merge + Runtime::from_lib; "
+             "with_context_type whose field is that second type; compile; get_function; call; drop — distributed over the fresh threads of a pool, steps 0-3 at the same moment: representatives worker-builds, parallel-parts, "
+             "context-worker, relay, then PRNG-drawn step-to-thread assignments over 2-5 reused threads; the observations must equal those of the same ten steps on ONE fresh thread = the closed form; a panic of a step is caught "
+             "on its thread and is an observation); rustc probes: a Send + !Sync closure, an Rc constant and a Send + !Sync "
              "host value Val<T> in a script-level constant must be rejected (if accepted they are run: 4 x 100000 calls, lost updates reported), their Sync controls must build and count exactly",
         search=search,
     )
